@@ -416,6 +416,43 @@ func (c *Check) parseSites(prefix string, rec map[string]map[string]*Builder, in
 					if ev.CI.recv != nil {
 						collect(ev.CI.recv, f, ev.Pos, false)
 					}
+					// a key handed to a module helper (a parser in package types, a keeper helper) is sliced there
+					if g := ev.CI.fn; g != nil && g.isHandWritten() && g.Body != nil && g != f {
+						m := map[string]*Term{}
+						keyed := false
+						for i, a := range ev.CI.args {
+							root := stripConv(a)
+							for root.Op == "slice" {
+								root = stripConv(root.A[0])
+							}
+							if isKeyTerm(root) {
+								m[fmt.Sprintf("P%d", i)] = a
+								keyed = true
+							}
+						}
+						if keyed {
+							for _, qa := range p.PathsOf(g) {
+								for _, qe := range qa.Events {
+									switch qe.Kind {
+									case EvCall:
+										if qe.CI.name == "bytes.Index" || qe.CI.name == "len" {
+											continue
+										}
+										for _, a := range qe.CI.args {
+											collect(a.Subst(m), g, qe.Pos, false)
+										}
+									case EvAssign, EvWrite:
+										if qe.Val != nil {
+											collect(qe.Val.Subst(m), g, qe.Pos, false)
+										}
+									}
+								}
+								for _, r := range qa.Ret {
+									collect(r.Subst(m), g, qa.RetPos, false)
+								}
+							}
+						}
+					}
 				}
 			}
 			for _, r := range pa.Ret {
